@@ -32,6 +32,10 @@ the propagation of the one message the model follows.  Links are lossless; `flig
 copies sent and not yet received; a *schedule* is the list of links `(u, v)` whose head copy is
 received next — any list is a schedule (an entry that is not in flight is a no-op), so a statement
 about all schedules covers every interleaving of receptions.
+
+Message identity: the model is id-agnostic — "the message" is whatever all nodes agree is one
+`MessageId` (see `specIds`); with a `DataTransform` the id is computed from the un-transformed data
+on both sides.
 -/
 namespace C27
 
@@ -290,6 +294,15 @@ def specSend (cfg : Cfg) (src : List (Node × Node)) (u w : Node) : Option Strin
   if src.contains (u, w) then some "echo_prop"
   else if cfg.source == some w then some "echo_source"
   else none
+
+/-- The model follows ONE message identity: it assumes that every node computes the same
+`MessageId` for the message (the publisher in `publish`, from the un-transformed data; every
+receiver in `handle_received_message`, from the inbound-transformed data), so that the publisher's
+`duplicate_cache` entry is the one an echoed copy hits.  The harness checks this assumption on the
+implementation: `same` = the id carried by every `Event::Message` equals the id `publish()`
+returned. -/
+def specIds (same : Bool) : Option String :=
+  if same then none else some "publisher_id_differs"
 
 def specStep (cfg : Cfg) (m : Mon) (op : Op) (o : Out) : Option String :=
   match op with
